@@ -135,23 +135,29 @@ theorem spec2_predBuiltin (cfg : CheckCfg) (c : SCfg) (cs : List OTy) (m mc : Me
 
 /-! ### the extended fragment -/
 
+mutual
 /-- literals, identifiers, `#`, the operators of the scalar fragment, `in` / `not in` / `..`, indexing,
-`len`, and `all none any one count` with their closures.  (`filter` and `map` are left out: their static
-result type `[]T` is not the `[]interface{}` the VM builds — known finding; so are slicing, members and
-calls.) -/
-def inFrag2 : Node → Bool
+`len`, slicing, `all none any one count` with their closures and — with `calls` — calls of environment
+functions.  (`filter` and `map` are left out: their static result type `[]T` is not the `[]interface{}`
+the VM builds — known finding; so are members and method calls.) -/
+def inFrag2 (calls : Bool) : Node → Bool
   | .bool _ _ | .str _ _ | .int _ _ | .float _ _ | .ident _ _ _ | .pointer _ => true
-  | .unary _ op x => fragUnary op && inFrag2 x
-  | .binary _ op l r => (fragBinary op || op == "in" || op == "not in" || op == "..") && inFrag2 l && inFrag2 r
-  | .cond _ c a b => inFrag2 c && inFrag2 a && inFrag2 b
-  | .index _ x i => inFrag2 x && inFrag2 i
-  | .slice _ x none none => inFrag2 x
-  | .slice _ x (some f) none => inFrag2 x && inFrag2 f
-  | .slice _ x none (some t) => inFrag2 x && inFrag2 t
-  | .slice _ x (some f) (some t) => inFrag2 x && inFrag2 f && inFrag2 t
-  | .builtin _ name [a] => name == "len" && inFrag2 a
-  | .builtin _ name [a, .closure _ b] => isPredBuiltin name && inFrag2 a && inFrag2 b
+  | .unary _ op x => fragUnary op && inFrag2 calls x
+  | .binary _ op l r => (fragBinary op || op == "in" || op == "not in" || op == "..") && inFrag2 calls l && inFrag2 calls r
+  | .cond _ c a b => inFrag2 calls c && inFrag2 calls a && inFrag2 calls b
+  | .index _ x i => inFrag2 calls x && inFrag2 calls i
+  | .slice _ x none none => inFrag2 calls x
+  | .slice _ x (some f) none => inFrag2 calls x && inFrag2 calls f
+  | .slice _ x none (some t) => inFrag2 calls x && inFrag2 calls t
+  | .slice _ x (some f) (some t) => inFrag2 calls x && inFrag2 calls f && inFrag2 calls t
+  | .builtin _ name [a] => name == "len" && inFrag2 calls a
+  | .builtin _ name [a, .closure _ b] => isPredBuiltin name && inFrag2 calls a && inFrag2 calls b
+  | .func _ _ args _ => calls && inFrag2L calls args
   | _ => false
+def inFrag2L (calls : Bool) : List Node → Bool
+  | [] => true
+  | a :: rest => inFrag2 calls a && inFrag2L calls rest
+end
 
 def sliceOK (t : Option OTy) : Bool :=
   match t with
@@ -174,6 +180,7 @@ def lenOK (t : Option OTy) : Bool :=
   | some τ => τ.kind == .string || (sliceElemKind τ).isSome
   | none => false
 
+mutual
 /-- "all its operands are statically typed", for the extended fragment: every operand of a scalar operator
 has a scalar type, collections are slices of scalars, indices are integers, closure bodies are scalar -/
 def typed2 (cfg : CheckCfg) : List OTy → Node → Bool
@@ -201,7 +208,21 @@ def typed2 (cfg : CheckCfg) : List OTy → Node → Bool
     (match synth cfg cs a with
       | some coll => scalarOK (synth cfg (coll :: cs) b) && typed2 cfg (coll :: cs) b
       | none => false)
+  | cs, .func _ name args _ =>
+    (match funcTargetC cfg name with
+      | some (fn, im) =>
+        (match funcPlan fn im args.length with
+          | .inr (ins, variadic, numIn, offset, _) => typed2A cfg cs ins variadic numIn offset 0 args
+          | .inl _ => false)
+      | none => false)
   | _, _ => true
+/-- the arguments of a call: each fits its parameter in the fragment's sense (`argOK`) -/
+def typed2A (cfg : CheckCfg) : List OTy → List Ty → Bool → Nat → Nat → Nat → List Node → Bool
+  | _, _, _, _, _, _, [] => true
+  | cs, ins, variadic, numIn, offset, i, a :: rest =>
+    argOK cfg a (synth cfg cs a) (paramFor ins variadic numIn offset i) && typed2 cfg cs a &&
+      typed2A cfg cs ins variadic numIn offset (i + 1) rest
+end
 
 theorem envConforms_of2 {cfg : CheckCfg} {env : Val} (h : EnvConforms2 cfg env) : EnvConforms cfg env := by
   intro name ns τ hr hs
@@ -222,10 +243,11 @@ theorem intOK_elim {o : Option OTy} (h : intOK o = true) :
   simp only [intOK, Bool.and_eq_true] at h
   exact ⟨h.1, h.2⟩
 
+mutual
 /-- **Soundness on the extended fragment**, by recursion over the tree. -/
 theorem frag2_sound (hd : E .divzero) (hi : E .index) (hbud : E .budget) (cfg : CheckCfg) (c : SCfg)
-    (henv : EnvConforms2 cfg c.env) :
-    ∀ (n : Node) (cs : List OTy), inFrag2 n = true → typed2 cfg cs n = true → Spec2 E cfg c cs n
+    (henv : EnvConforms2 cfg c.env) (calls : Bool) (hw : calls = true → WorldConforms E cfg c) :
+    ∀ (n : Node) (cs : List OTy), inFrag2 calls n = true → typed2 cfg cs n = true → Spec2 E cfg c cs n
   | .bool m b, cs, _, _ =>
     frag_to_spec2 (frag_sound hd cfg cs c (envConforms_of2 henv) (.bool m b) rfl rfl)
       (fun τ h => by simp only [synth, Option.some.injEq] at h; subst h; rfl)
@@ -243,7 +265,7 @@ theorem frag2_sound (hd : E .divzero) (hi : E .index) (hbud : E .budget) (cfg : 
   | .unary m op x, cs, hf, ht => by
     simp only [inFrag2, Bool.and_eq_true] at hf
     simp only [typed2, Bool.and_eq_true] at ht
-    have ihx := frag2_sound hd hi hbud cfg c henv x cs hf.2 ht.2
+    have ihx := frag2_sound hd hi hbud cfg c henv calls hw x cs hf.2 ht.2
     refine frag_to_spec2 (frag_unary cfg cs c m op x hf.1 ht.1.1 ht.1.2 (spec2_to_frag ihx)) ?_
     intro τ h
     have := ht.1.1
@@ -252,9 +274,9 @@ theorem frag2_sound (hd : E .divzero) (hi : E .index) (hbud : E .budget) (cfg : 
     simp only [inFrag2, Bool.and_eq_true] at hf
     simp only [typed2, Bool.and_eq_true] at ht
     obtain ⟨⟨⟨⟨⟨⟨h0, h1⟩, h2⟩, h3⟩, t1⟩, t2⟩, t3⟩ := ht
-    have ih1 := frag2_sound hd hi hbud cfg c henv cn cs hf.1.1 t1
-    have ih2 := frag2_sound hd hi hbud cfg c henv a cs hf.1.2 t2
-    have ih3 := frag2_sound hd hi hbud cfg c henv b cs hf.2 t3
+    have ih1 := frag2_sound hd hi hbud cfg c henv calls hw cn cs hf.1.1 t1
+    have ih2 := frag2_sound hd hi hbud cfg c henv calls hw a cs hf.1.2 t2
+    have ih3 := frag2_sound hd hi hbud cfg c henv calls hw b cs hf.2 t3
     refine frag_to_spec2 (frag_cond cfg cs c m cn a b h0 h1 h2 h3 (spec2_to_frag ih1) (spec2_to_frag ih2)
       (spec2_to_frag ih3)) ?_
     intro τ h
@@ -264,8 +286,8 @@ theorem frag2_sound (hd : E .divzero) (hi : E .index) (hbud : E .budget) (cfg : 
     simp only [typed2, Bool.and_eq_true] at ht
     obtain ⟨⟨hop, hfl⟩, hfr⟩ := hf
     obtain ⟨⟨hcls, htl⟩, htr⟩ := ht
-    have ihl := frag2_sound hd hi hbud cfg c henv l cs hfl htl
-    have ihr := frag2_sound hd hi hbud cfg c henv r cs hfr htr
+    have ihl := frag2_sound hd hi hbud cfg c henv calls hw l cs hfl htl
+    have ihr := frag2_sound hd hi hbud cfg c henv calls hw r cs hfr htr
     by_cases hfb : fragBinary op = true
     · simp only [hfb, if_true, Bool.and_eq_true] at hcls
       refine frag_to_spec2 (frag_binary hd cfg cs c m op l r hfb hcls.1.2 hcls.2 (spec2_to_frag ihl)
@@ -303,8 +325,8 @@ theorem frag2_sound (hd : E .divzero) (hi : E .index) (hbud : E .budget) (cfg : 
     simp only [inFrag2, Bool.and_eq_true] at hf
     simp only [typed2, Bool.and_eq_true] at ht
     obtain ⟨⟨⟨hsx, hsi⟩, htx⟩, hti⟩ := ht
-    refine spec2_index hi cfg c cs m x i (frag2_sound hd hi hbud cfg c henv x cs hf.1 htx)
-      (frag2_sound hd hi hbud cfg c henv i cs hf.2 hti) ?_ ?_
+    refine spec2_index hi cfg c cs m x i (frag2_sound hd hi hbud cfg c henv calls hw x cs hf.1 htx)
+      (frag2_sound hd hi hbud cfg c henv calls hw i cs hf.2 hti) ?_ ?_
     · intro t h
       rw [h] at hsx
       simp only [sliceOK, Option.isSome_iff_exists] at hsx
@@ -316,36 +338,36 @@ theorem frag2_sound (hd : E .divzero) (hi : E .index) (hbud : E .budget) (cfg : 
   | .slice m x none none, cs, hf, ht => by
     simp only [inFrag2] at hf
     simp only [typed2, Bool.and_eq_true] at ht
-    refine spec2_slice hi cfg c cs m x none none (frag2_sound hd hi hbud cfg c henv x cs hf ht.2)
+    refine spec2_slice hi cfg c cs m x none none (frag2_sound hd hi hbud cfg c henv calls hw x cs hf ht.2)
       (fun n h => by cases h) (fun n h => by cases h) (sliceOK_elim ht.1)
       (fun n it h => by cases h) (fun n it h => by cases h)
   | .slice m x (some f) none, cs, hf, ht => by
     simp only [inFrag2, Bool.and_eq_true] at hf
     simp only [typed2, Bool.and_eq_true] at ht
     obtain ⟨⟨⟨h1, h2⟩, h3⟩, h4⟩ := ht
-    refine spec2_slice hi cfg c cs m x (some f) none (frag2_sound hd hi hbud cfg c henv x cs hf.1 h2)
-      (fun n h => by cases h; exact frag2_sound hd hi hbud cfg c henv f cs hf.2 h4) (fun n h => by cases h)
+    refine spec2_slice hi cfg c cs m x (some f) none (frag2_sound hd hi hbud cfg c henv calls hw x cs hf.1 h2)
+      (fun n h => by cases h; exact frag2_sound hd hi hbud cfg c henv calls hw f cs hf.2 h4) (fun n h => by cases h)
       (sliceOK_elim h1) (fun n it h => by cases h; exact intOK_elim h3 it) (fun n it h => by cases h)
   | .slice m x none (some t), cs, hf, ht => by
     simp only [inFrag2, Bool.and_eq_true] at hf
     simp only [typed2, Bool.and_eq_true] at ht
     obtain ⟨⟨⟨h1, h2⟩, h3⟩, h4⟩ := ht
-    refine spec2_slice hi cfg c cs m x none (some t) (frag2_sound hd hi hbud cfg c henv x cs hf.1 h2)
-      (fun n h => by cases h) (fun n h => by cases h; exact frag2_sound hd hi hbud cfg c henv t cs hf.2 h4)
+    refine spec2_slice hi cfg c cs m x none (some t) (frag2_sound hd hi hbud cfg c henv calls hw x cs hf.1 h2)
+      (fun n h => by cases h) (fun n h => by cases h; exact frag2_sound hd hi hbud cfg c henv calls hw t cs hf.2 h4)
       (sliceOK_elim h1) (fun n it h => by cases h) (fun n it h => by cases h; exact intOK_elim h3 it)
   | .slice m x (some f) (some t), cs, hf, ht => by
     simp only [inFrag2, Bool.and_eq_true] at hf
     simp only [typed2, Bool.and_eq_true] at ht
     obtain ⟨⟨⟨⟨⟨h1, h2⟩, h3⟩, h4⟩, h5⟩, h6⟩ := ht
-    refine spec2_slice hi cfg c cs m x (some f) (some t) (frag2_sound hd hi hbud cfg c henv x cs hf.1.1 h2)
-      (fun n h => by cases h; exact frag2_sound hd hi hbud cfg c henv f cs hf.1.2 h4)
-      (fun n h => by cases h; exact frag2_sound hd hi hbud cfg c henv t cs hf.2 h6)
+    refine spec2_slice hi cfg c cs m x (some f) (some t) (frag2_sound hd hi hbud cfg c henv calls hw x cs hf.1.1 h2)
+      (fun n h => by cases h; exact frag2_sound hd hi hbud cfg c henv calls hw f cs hf.1.2 h4)
+      (fun n h => by cases h; exact frag2_sound hd hi hbud cfg c henv calls hw t cs hf.2 h6)
       (sliceOK_elim h1) (fun n it h => by cases h; exact intOK_elim h3 it) (fun n it h => by cases h; exact intOK_elim h5 it)
   | .builtin m name [a], cs, hf, ht => by
     simp only [inFrag2, Bool.and_eq_true, beq_iff_eq] at hf
     simp only [typed2, Bool.and_eq_true] at ht
     obtain ⟨rfl, hfa⟩ := hf
-    refine spec2_len cfg c cs m a (frag2_sound hd hi hbud cfg c henv a cs hfa ht.2) ?_
+    refine spec2_len cfg c cs m a (frag2_sound hd hi hbud cfg c henv calls hw a cs hfa ht.2) ?_
     intro t h
     have hl := ht.1
     rw [h] at hl
@@ -359,11 +381,11 @@ theorem frag2_sound (hd : E .divzero) (hi : E .index) (hbud : E .budget) (cfg : 
     simp only [typed2, Bool.and_eq_true] at ht
     obtain ⟨⟨hname, hfa⟩, hfb⟩ := hf
     obtain ⟨⟨hsa, hta⟩, hbody⟩ := ht
-    refine spec2_predBuiltin cfg c cs m mc name a b hname (frag2_sound hd hi hbud cfg c henv a cs hfa hta) ?_ ?_ ?_
+    refine spec2_predBuiltin cfg c cs m mc name a b hname (frag2_sound hd hi hbud cfg c henv calls hw a cs hfa hta) ?_ ?_ ?_
     · intro coll hc
       rw [hc] at hbody
       simp only [Bool.and_eq_true] at hbody
-      exact frag2_sound hd hi hbud cfg c henv b (coll :: cs) hfb hbody.2
+      exact frag2_sound hd hi hbud cfg c henv calls hw b (coll :: cs) hfb hbody.2
     · intro t h
       rw [h] at hsa
       simp only [sliceOK, Option.isSome_iff_exists] at hsa
@@ -374,12 +396,43 @@ theorem frag2_sound (hd : E .divzero) (hi : E .index) (hbud : E .budget) (cfg : 
       have := hbody.1
       rw [hb'] at this
       exact this
+  | .func m name args fast, cs, hf, ht => by
+    simp only [inFrag2, Bool.and_eq_true] at hf
+    obtain ⟨hcalls, hfa⟩ := hf
+    simp only [typed2] at ht
+    cases hft : funcTargetC cfg name with
+    | none => rw [hft] at ht; cases ht
+    | some p =>
+      obtain ⟨fn, im⟩ := p
+      rw [hft] at ht
+      simp only [] at ht
+      refine spec2_func hd cfg c (hw hcalls) cs m name args fast (by rw [hft]; rfl) ?_
+      intro fn' im' ins variadic numIn offset out h1 h2
+      rw [hft] at h1
+      cases h1
+      rw [h2] at ht
+      simp only [] at ht
+      exact frag2_args hd hi hbud cfg c henv calls hw args cs ins variadic numIn offset 0 hfa ht
   | .nil _, _, hf, _ | .const _ _, _, hf, _ | .matches _ _ _ _, _, hf, _ | .prop _ _ _ _, _, hf, _
-  | .method _ _ _ _ _, _, hf, _ | .func _ _ _ _, _, hf, _
+  | .method _ _ _ _ _, _, hf, _
   | .closure _ _, _, hf, _ | .array _ _, _, hf, _ | .map _ _, _, hf, _ | .pair _ _ _, _, hf, _ => by
     simp [inFrag2] at hf
   | .builtin _ _ [], _, hf, _ => by simp [inFrag2] at hf
   | .builtin _ _ (_ :: _ :: _ :: _), _, hf, _ => by simp [inFrag2] at hf
   | .builtin _ _ [_, .nil _], _, hf, _ => by simp [inFrag2] at hf
+
+theorem frag2_args (hd : E .divzero) (hi : E .index) (hbud : E .budget) (cfg : CheckCfg) (c : SCfg)
+    (henv : EnvConforms2 cfg c.env) (calls : Bool) (hw : calls = true → WorldConforms E cfg c) :
+    ∀ (args : List Node) (cs : List OTy) (ins : List Ty) (variadic : Bool) (numIn offset i : Nat),
+      inFrag2L calls args = true → typed2A cfg cs ins variadic numIn offset i args = true →
+      ArgsOK E cfg c cs ins variadic numIn offset i args
+  | [], _, _, _, _, _, _, _, _ => trivial
+  | a :: rest, cs, ins, variadic, numIn, offset, i, hf, ht => by
+    simp only [inFrag2L, Bool.and_eq_true] at hf
+    simp only [typed2A, Bool.and_eq_true] at ht
+    refine ⟨⟨?_, frag2_sound hd hi hbud cfg c henv calls hw a cs hf.1 ht.1.2, ht.1.1⟩,
+      frag2_args hd hi hbud cfg c henv calls hw rest cs ins variadic numIn offset (i + 1) hf.2 ht.2⟩
+    cases a <;> first | rfl | (simp [inFrag2] at hf)
+end
 
 end ExprModel
